@@ -652,7 +652,9 @@ class ObjectMethod(DeserializationMethod):
                         )
             for pattern_field in self.pattern_fields:
                 matched: dict = {
-                    key: data[key] for key in remain if pattern_field.pattern.match(key)
+                    key: data[key]
+                    for key in remain
+                    if isinstance(key, str) and pattern_field.pattern.match(key)
                 }
                 remain.difference_update(matched)
                 try:
